@@ -280,6 +280,12 @@ func c14Gen(r *vu.Rng, _ int) []string {
 			rdsz:   c14Pick(r, []int{1, 7, 512, 4096, 32768, 100000}),
 			expl:   true,
 		}
+		if rs.mode == 1 && rs.status > 299 {
+			// By design the Transport stops sending the request body once a response with status
+			// > 299 arrives (abortRequestBodyWrite): a handler that answers 4xx first and reads the
+			// body afterwards is a separate scenario, not part of the regular stream.
+			rs.status = c14Pick(r, []int{200, 201})
+		}
 		if rs.status == 200 && r.Bool() {
 			rs.expl = false
 		}
